@@ -6,6 +6,33 @@
 
 package py
 
+// sequenceRepeat returns items repeated count times - the result of
+// multiplying a list or a tuple by count.
+//
+// It returns MemoryError for a result which is too long to allocate
+// where make would panic.
+func sequenceRepeat(items []Object, count Int) (out []Object, err error) {
+	m := len(items)
+	if count <= 0 || m == 0 {
+		return []Object{}, nil
+	}
+	const maxInt = int(^uint(0) >> 1)
+	if int(count) > maxInt/m {
+		return nil, ExceptionNewf(MemoryError, "repeated sequence is too long")
+	}
+	defer func() {
+		if r := recover(); r != nil {
+			err = ExceptionNewf(MemoryError, "repeated sequence is too long")
+		}
+	}()
+	n := int(count) * m
+	out = make([]Object, n)
+	for i := 0; i < n; i += m {
+		copy(out[i:i+m], items)
+	}
+	return out, nil
+}
+
 // Converts a sequence object v into a Tuple
 func SequenceTuple(v Object) (Tuple, error) {
 	switch x := v.(type) {
